@@ -62,13 +62,24 @@ def method_specs(tier, rnd):
                 for ret in [rk[(rot + j) % len(rk)] for j in range(2 if tier == 'quick' else 4)]:
                     specs.append(dict(recv=recv, params=params, ret=ret, asy='sync', provided=False, unmock='none'))
     # async / provided / unmock variations, pairwise-ish
-    base = [s for s in specs if len(s['params']) in (1, 2, 3)]
+    base = [s for s in specs if len(s['params']) in (0, 1, 2, 3)]
     for i, s in enumerate(base):
         t = dict(s)
         t['asy'] = ['async', 'rpit', 'sync'][i % 3]
         t['provided'] = (i % 2 == 0)
         t['unmock'] = ['path', 'args', 'skip', 'none'][i % 4]
         specs.append(t)
+    # `-> impl Future` (only &self expands): arity 0..3 x non-borrowing returns x required/provided
+    k = 0
+    for arity in range(0, 4):
+        for ret in ('unit', 'owned', 'string', 'optowned', 'resowned', 'static'):
+            params = [['copy', 'str', 'owned', 'ref', 'slice'][(k + i) % 5] for i in range(arity)]
+            specs.append(dict(recv='ref', params=params, ret=ret, asy='rpit', provided=(k % 3 == 0), unmock='none'))
+            k += 1
+    # provided methods without parameters, every receiver
+    for recv, _ in RECEIVERS:
+        for asy in ('sync', 'async'):
+            specs.append(dict(recv=recv, params=[], ret='owned', asy=asy, provided=True, unmock='none'))
     # every position of every &mut kind for arity 3
     for recv, _ in RECEIVERS[:3]:
         for pos in range(3):
@@ -95,7 +106,11 @@ def method_specs(tier, rnd):
         seen.add(key)
         out.append(s)
     rnd.shuffle(out)
-    limit = 260 if tier == 'quick' else 1200
+    # the named sub-products are kept in full; the rest fills up to the limit
+    named = [s_ for s_ in out if s_['asy'] == 'rpit' or (s_['provided'] and not s_['params'])]
+    rest = [s_ for s_ in out if s_ not in named]
+    out = named + rest
+    limit = 300 if tier == 'quick' else 1300
     return out[:limit]
 
 
